@@ -435,3 +435,16 @@ def run(index, rep, tier):
         rep.rule("R16.14", "the scoring passes walk a tree of any depth (C07 R07.11): Node.postorder_iter / preorder_iter, which fitch_down_pass and fitch_up_pass are fed from, contain no call of the same method on another node - a recursive generator makes a ladder tree of 1500 leaves unscorable (RecursionError) while the parsimony code itself is iterative")
         nb = borrow(index, rep, "C07", {"R07.11"}, "R16.14")
         rep.floor("R16.14", "borrowed obligations", 2, nb)
+
+    # ---- R16.15 a compile pass decides the gap designation of EVERY state afresh
+    with rep.section("R16.15"):
+        rep.rule("R16.15", "a compile pass decides the gap designation of every state afresh: in StateAlphabet.compile_symbol_lookup_mappings the test that marks the gap state (`state.is_gap_state = True`, `gap_state_as_no_data_state = <no-data state>`) has a plain `else` that assigns BOTH fields their 'not the gap' values - a designation that was withdrawn or moved (`sa.gap_symbol = None`) must not survive on the former gap state, or two alphabets that are identical now score differently depending on their history")
+        csl = index.function("dendropy.datamodel.charstatemodel.StateAlphabet.compile_symbol_lookup_mappings")
+        marks = [i for i in ast.walk(csl.node) if isinstance(i, ast.If) and any(isinstance(a, ast.Assign) and isinstance(a.targets[0], ast.Attribute) and a.targets[0].attr == "is_gap_state" and isinstance(a.value, ast.Constant) and a.value.value is True for a in i.body)]
+        if len(marks) != 1:
+            raise AnalysisError("R16.15: the gap-marking test of compile_symbol_lookup_mappings not recognised")
+        iff = marks[0]
+        plain_else = bool(iff.orelse) and not (len(iff.orelse) == 1 and isinstance(iff.orelse[0], ast.If))
+        reset = {a.targets[0].attr for a in iff.orelse if isinstance(a, ast.Assign) and isinstance(a.targets[0], ast.Attribute)} if plain_else else set()
+        rep.check(plain_else and {"is_gap_state", "gap_state_as_no_data_state"} <= reset, "R16.15", csl.qualname, "a withdrawn gap designation is not reset", fn_where(csl, iff), "compile_symbol_lookup_mappings resets both gap fields for every state that is not the gap",
+                  "StateAlphabet.compile_symbol_lookup_mappings does not unconditionally reset %s for a state that is not (or no longer) the gap: after `sa.gap_symbol = None` the former gap state keeps its flag and is still scored as missing data under gaps_as_missing=True (5 changes where the alphabet as it now stands gives 10)" % sorted({"is_gap_state", "gap_state_as_no_data_state"} - reset))
